@@ -48,19 +48,40 @@ import (
 // ------------------------------------------------------------------------------------------ scenarios
 
 type c10Scenario struct {
-	ID        int    `json:"id"`
-	Browser   string `json:"browser"`
-	Name      string `json:"server_name"`
-	Enc       string `json:"encryption"`
-	NumConn   int    `json:"num_conn"` // 0 = singleplex (one connection, one stream)
-	Unordered bool   `json:"unordered"`
-	Pattern   string `json:"pattern"`
-	Seed      int64  `json:"seed"`
+	ID      int    `json:"id"`
+	Browser string `json:"browser"`
+	Name    string `json:"server_name"`
+	// AlternativeNames of the client configuration.  As in cmd/ck-client (seshMaker) the name of a session is drawn
+	// from AlternativeNames + ServerName (LocalConnConfig.MockDomainList) and handed over in AuthInfo.MockDomain.
+	Alt       []string `json:"alternative_names"`
+	Drawn     string   `json:"drawn_name"` // filled in by the run: the name drawn for this session
+	Enc       string   `json:"encryption"`
+	NumConn   int      `json:"num_conn"` // 0 = singleplex (one connection, one stream)
+	Unordered bool     `json:"unordered"`
+	Pattern   string   `json:"pattern"`
+	Seed      int64    `json:"seed"`
 }
 
 var c10Browsers = []string{"chrome", "firefox", "safari"}
 var c10Encs = []string{"plain", "aes-256-gcm", "aes-128-gcm", "chacha20-poly1305"}
-var c10Names = []string{"www.bing.com", "random", "RANDOM", "a-1.b2.example.org", "Random", "xn--bcher-kva.example"}
+
+type c10NameCfg struct {
+	Name string
+	Alt  []string
+}
+
+// server-name configurations: ServerName alone (a host name, the keyword in several capitalisations) and together
+// with AlternativeNames (one, several, containing the keyword, containing an empty entry that the client drops)
+var c10Names = []c10NameCfg{
+	{"www.bing.com", nil}, {"random", nil}, {"RANDOM", nil}, {"a-1.b2.example.org", nil}, {"Random", nil}, {"xn--bcher-kva.example", nil},
+	{"random", []string{"cloudflare.com", "github.com"}},
+	{"www.bing.com", []string{"random"}},
+	{"RANDOM", []string{"www.example.org"}},
+	{"www.bing.com", []string{"Random", "cdn.example.net", "static.example.net"}},
+	{"rAnDoM", []string{"random", "a.b.example"}},
+	{"www.bing.com", []string{"github.com"}},
+	{"one.example", []string{"two.example", "", "three.example", "four.example"}},
+}
 var c10NumConns = []int{1, 2, 4}
 var c10Patterns = []string{"small", "multiframe", "manystreams", "target-closes", "banner", "server-close", "inactivity",
 	"idle", "fault", "abrupt", "pipelined", "empty-from-target", "empty-from-app"}
@@ -70,13 +91,19 @@ func (s c10Scenario) sig() string {
 	if strings.EqualFold(n, "random") {
 		n = "random"
 	}
-	return fmt.Sprintf("%s/%s/%s/%d/%v/%s", s.Browser, n, s.Enc, s.NumConn, s.Unordered, s.Pattern)
+	kw := 0
+	for _, a := range s.Alt {
+		if strings.EqualFold(a, "random") {
+			kw++
+		}
+	}
+	return fmt.Sprintf("%s/%s+%dalt(%dkw)/%s/%d/%v/%s", s.Browser, n, len(s.Alt), kw, s.Enc, s.NumConn, s.Unordered, s.Pattern)
 }
 
 func c10Scenarios(rng *kit.Rng, thorough bool) []c10Scenario {
 	var out []c10Scenario
-	add := func(b, n, e string, nc int, un bool, p string) {
-		out = append(out, c10Scenario{ID: len(out), Browser: b, Name: n, Enc: e, NumConn: nc, Unordered: un, Pattern: p,
+	add := func(b string, n c10NameCfg, e string, nc int, un bool, p string) {
+		out = append(out, c10Scenario{ID: len(out), Browser: b, Name: n.Name, Alt: n.Alt, Enc: e, NumConn: nc, Unordered: un, Pattern: p,
 			Seed: int64(rng.Uint64() >> 1)})
 	}
 	rounds := 2
@@ -306,6 +333,7 @@ func c10AcceptLoop(l *kit.VListener, h func(net.Conn)) {
 }
 
 type c10Outcome struct {
+	Drawn       string
 	mu          sync.Mutex // streams of one scenario run on several goroutines
 	Established bool
 	Conns       int
@@ -643,7 +671,7 @@ func c10Analyse(sc c10Scenario, tp *c10Tap, out *c10Outcome) {
 		ids = append(ids, id)
 	}
 	sort.Ints(ids)
-	cfgRandom := strings.EqualFold(sc.Name, "random")
+	cfgRandom := strings.EqualFold(sc.Drawn, "random") // the keyword is recognised on the name of the session, any capitalisation
 	dirName := [2]string{"c2s", "s2c"}
 	for _, id := range ids {
 		lt := tp.links[id]
@@ -667,9 +695,9 @@ func c10Analyse(sc c10Scenario, tp *c10Tap, out *c10Outcome) {
 			}
 		}
 		sort.SliceStable(items, func(i, j int) bool { return items[i].seq < items[j].seq })
-		evs := []map[string]any{{"ev": "Open", "scn": sc.ID, "conn": id, "cfg_sni": sc.Name, "cfg_random": cfgRandom,
+		evs := []map[string]any{{"ev": "Open", "scn": sc.ID, "conn": id, "cfg_sni": sc.Drawn, "cfg_random": cfgRandom, "server_name": sc.Name, "alt": strings.Join(sc.Alt, ","),
 			"browser": sc.Browser, "pattern": sc.Pattern}}
-		ob := &c10Observer{cfgName: sc.Name, cfgRandom: cfgRandom}
+		ob := &c10Observer{cfgName: sc.Drawn, cfgRandom: cfgRandom}
 		rejected := false
 		for _, it := range items {
 			r := it.rec
@@ -722,7 +750,7 @@ func c10Analyse(sc c10Scenario, tp *c10Tap, out *c10Outcome) {
 					what += " (" + strings.Join(r.Hello.Problems, "; ") + ")"
 				}
 				if key == "clienthello:sni" && r.Hello != nil {
-					what += fmt.Sprintf(" (configured %q, on the wire %q)", sc.Name, r.Hello.SNI)
+					what += fmt.Sprintf(" (ServerName %q, AlternativeNames %q, drawn for this session %q, on the wire %q)", sc.Name, sc.Alt, sc.Drawn, r.Hello.SNI)
 				}
 				out.Rejected = append(out.Rejected, map[string]any{"scn": sc.ID, "conn": id, "key": key, "dir": dirName[it.dir], "idx": r.Index})
 				out.Violations = append(out.Violations, kit.Violation{Key: key, What: what,
@@ -752,12 +780,28 @@ func c10RunScenario(t *testing.T, sc c10Scenario, stuck func(*c10Outcome)) *c10O
 		go c10AcceptLoop(srvL, func(c net.Conn) { dispatchConnection(c, sta) })
 		go c10AcceptLoop(redirL, func(c net.Conn) { io.Copy(io.Discard, c); c.Close() })
 		world := common.WorldState{Rand: rand.Reader, Now: time.Now}
-		raw := client.RawConfig{ServerName: sc.Name, ProxyMethod: "echo", EncryptionMethod: sc.Enc, UID: c10UID,
+		raw := client.RawConfig{ServerName: sc.Name, AlternativeNames: append([]string{}, sc.Alt...), ProxyMethod: "echo", EncryptionMethod: sc.Enc, UID: c10UID,
 			PublicKey: ecdh.Marshal(c10Pub), NumConn: sc.NumConn, LocalHost: "127.0.0.1", LocalPort: "1984",
 			RemoteHost: "127.0.0.1", RemotePort: "443", BrowserSig: sc.Browser, Transport: "direct", UDP: sc.Unordered}
-		_, remote, auth, err := raw.ProcessRawConfig(world)
+		local, remote, auth, err := raw.ProcessRawConfig(world)
 		if err != nil {
 			t.Fatalf("scenario %d: client configuration refused: %v", sc.ID, err)
+		}
+		// what cmd/ck-client's seshMaker does for every new session: one random byte picks the session's name from
+		// MockDomainList (AlternativeNames + ServerName); it reaches the transport as AuthInfo.MockDomain
+		pick := kit.NewRng(sc.Seed ^ 0x5e55104e).Intn(256)
+		sc.Drawn = local.MockDomainList[pick%len(local.MockDomainList)]
+		auth.MockDomain = sc.Drawn
+		out.Drawn = sc.Drawn
+		if len(sc.Alt) > 0 {
+			switch {
+			case strings.EqualFold(sc.Drawn, "random"):
+				out.stat("altnames_sessions_drew_keyword")
+			case sc.Drawn == sc.Name:
+				out.stat("altnames_sessions_drew_servername")
+			default:
+				out.stat("altnames_sessions_drew_alternative")
+			}
 		}
 		sid := c10SessionIds.Add(1)
 		auth.SessionId = sid
